@@ -172,6 +172,10 @@ NoticedInv == s.cpc = "poll" => C42_Noticed(s.cview # s.content, s.seen, s.sig)
 \* clause 2 as liveness: with finitely many edits and transitions the controller ends up knowing the disk
 Converges == <>[](s.cview = s.content)
 
+\* state constraint for the documentation runs of the originally coded comparison (FixLevel 0): the poller's
+\* baseline scan precedes everything the controller does, which leaves finding 9 as the only counterexample
+BaselineFirst == s.pfirst => s.cpc = "slock"
+
 TypeOK == /\ s.lock \in {"free", "poller", "ctrl"}
           /\ s.content \in Vals /\ s.cview \in Vals \cup {Unknown}
           /\ (s.lock = "poller") = (s.ppc \in {"scanB", "scanE"})
